@@ -55,7 +55,7 @@ NonKey == Leaf \ UKeyLeaf
 UpdSets == {S \in SUBSET NonKey : Cardinality(S) <= MaxUpd /\ S # {}}
 CloseKeys(S) == S \cup {k \in UKeyLeaf \cap Leaf : \E l \in S : EntryOf(l) = UEntryOf[k]}
 Contents == UNION {{ {<<l, IF IsKey(l) THEN "key" ELSE f[l]>> : l \in CloseKeys(S)} : f \in [S -> UNION {Val(l) : l \in S}] } : S \in UpdSets}
-GoodContent(u) == \A q \in u : IsKey(q[1]) \/ q[2] \in Val(q[1])
+GoodContent(u) == OneCasePerChoice(u) /\ \A q \in u : IsKey(q[1]) \/ q[2] \in Val(q[1])
 OP == {op \in Owner \X Prio : op[2] \in PrioOf[op[1]]}
 IntentSet == {[o |-> op[1], p |-> op[2], kind |-> "set", upd |-> u] : op \in OP, u \in {c \in Contents : GoodContent(c)}}
 IntentDel == {[o |-> o, p |-> (CHOOSE p \in PrioOf[o] : TRUE), kind |-> k, upd |-> {}] : o \in Owner, k \in {"del", "orphan"}}
